@@ -17,8 +17,12 @@ Become(n) == /\ pc' = n.pc /\ nxt' = n.nxt /\ table' = n.table /\ idx' = n.idx
 FileOK(t, o) ==
   /\ o.outcome = "ok"
   /\ o.view.wellformed /\ o.view.bad_index = 0
-  /\ o.view.has_part = part[t] /\ o.view.has_rel = rel[t] /\ o.view.has_ct = part[t]
-  /\ o.view.sst = dump[t]              \* exactly the table a solo save would dump, nothing foreign
+  (* the part, its relationship and its content type come together; it must be there when the saver
+     has strings (whether an empty part is written for a saver without strings is the writer's business) *)
+  /\ (o.view.has_part <=> o.view.has_rel) /\ (o.view.has_part <=> o.view.has_ct)
+  /\ (part[t] => o.view.has_part)
+  (* the strings a solo save would dump, nothing foreign (order and repetition are the writer's business) *)
+  /\ SeqSet(o.view.sst) = SeqSet(dump[t])
   /\ o.cells = o.want                  \* every text cell (raw sheets included) shows its own string
 
 Ev == Rec[l]
